@@ -82,6 +82,13 @@ def run(ctx):
             if ka is not None and ka.kind == 'str':
                 written[ka.args[0]] = True
                 return get(ka.args[0])
+        if a.kind == 'cmp' and a.args[0] == 'in' and a.args[2].key == hatom_key:
+            return T.mk_in(a.args[1], rh.ret)              # `key in header`: decided by what the writer stores
+        if a.kind == 'call' and a.args[0] in ('.get', 'get') and len(a.args[1]) in (2, 3) and a.args[1][0].key == hatom_key:
+            ka = a.args[1][1].single_atom()
+            if ka is not None and ka.kind == 'str' and T.mk_in(a.args[1][1], rh.ret).key == TRUE.key:
+                written[ka.args[0]] = True
+                return get(ka.args[0])                     # header.get(key, default) of a key the writer always stores
         return None
     for key, spec in (('fch1', 'self.fch1'), ('chan_bw', 'self.chan_bw'), ('ascending', 'self.ascending'),
                       ('num_chans', 'self.num_chans'), ('num_bits', 'self.num_bits'),
